@@ -484,7 +484,7 @@ PROBES = {"D17": [("schedule", _D17_PROBE), ("schedule", _D17_PROBE_REG)]}
 
 SUBS = [
     Sub("schedule", check, strategy=_cases, quick=400, thorough=10000, shards=16, shrink_quick=False,
-        floors={"nt": 0.247, "ragged_multi_epoch": 0.085, "callback_stop": 0.1, "twin": 0.421, "recorded": 0.15,
+        floors={"nt": 0.247, "ragged_multi_epoch": 0.085, "callback_stop": 0.1, "twin": 0.41, "recorded": 0.15,
                 "max_iter_exhausted": 0.05, "two_callbacks": 0.15, "tie_at_threshold": 0.03, "y_multi": 0.048,
-                "y_cont": 0.08, "bs1": 0.02, "base_class": 0.15}),
+                "y_cont": 0.078, "bs1": 0.02, "base_class": 0.121}),
 ]
